@@ -526,7 +526,7 @@ def gen_system(rng):
         sim["temps"] = None
         if rng.random() < 0.15:
             sim["temps"] = [rng.choice([20, 25, 30, 40]) for _ in range(rng.choice([2, 3, 5]))]
-        sim["run_cells"] = False
+        sim["run_cells"] = rng.random() < 0.2
         S["sims"].append(sim)
     return S
 
@@ -611,7 +611,38 @@ def render_input(S):
     if k:
         L.append("  30 PUNCH %s" % ", ".join('KIN("%s")' % c[0] for c in k["comps"]))
     L.append("USE solution none\nDUMP\n  -all\nEND")
+    simno = 1
     for i, sim in enumerate(S["sims"]):
+        r = sim["rxn"]
+        rx = []
+        if r:
+            rx.append("REACTION 1")
+            rx.append("  " + " ".join("%s %s" % (nm, c) for nm, c in r["reactants"]))
+            if r["equal"]:
+                rx.append("  %s %s in %d steps" % (fnum(r["steps"][0]), r["units"], r["count"]))
+            else:
+                rx.append("  %s %s" % (" ".join(fnum(x) for x in r["steps"]), r["units"]))
+        if sim.get("run_cells"):
+            # cell 1 = everything numbered 1; clear left-overs of earlier simulations first (DELETE acts at the end of a simulation)
+            L.append("DELETE\n  -mix 1\n  -reaction 1\n  -reaction_temperature 1\nEND")
+            simno += 2
+            L.append("INCREMENTAL_REACTIONS %s" % ("true" if sim["incr"] else "false"))
+            if sim["mix"]:
+                L.append("MIX 1")
+                for n, f in sim["mix"]:
+                    L.append("  %d %s" % (n, f))
+                L.append("USE mix none")         # no separate batch-reaction calculation; RUN_CELLS picks MIX 1 up itself
+            L += rx
+            if sim["temps"]:
+                L.append("REACTION_TEMPERATURE 1\n  %s" % " ".join(str(t) for t in sim["temps"]))
+            L.append("RUN_CELLS\n  -cells 1")
+            if S["kin"]:
+                L.append("  -time_step %s" % S["kin"]["time"])
+            sim["_simno"] = simno
+            L.append("DUMP\n  -all\n  -append true\nEND")
+            continue
+        simno += 1
+        sim["_simno"] = simno
         L.append("INCREMENTAL_REACTIONS %s" % ("true" if sim["incr"] else "false"))
         if sim["mix"]:
             L.append("MIX 1")
@@ -624,14 +655,8 @@ def render_input(S):
                         ("solid_solutions", "ss"), ("kinetics", "kin")):
             if S[key]:
                 L.append("USE %s 1" % kw)
-        r = sim["rxn"]
         if r:
-            L.append("REACTION 1")
-            L.append("  " + " ".join("%s %s" % (nm, c) for nm, c in r["reactants"]))
-            if r["equal"]:
-                L.append("  %s %s in %d steps" % (fnum(r["steps"][0]), r["units"], r["count"]))
-            else:
-                L.append("  %s %s" % (" ".join(fnum(x) for x in r["steps"]), r["units"]))
+            L += rx
         else:
             L.append("USE reaction none")
         if sim["temps"]:
@@ -712,10 +737,13 @@ def build_cases(chem, S, result):
     prev = parse_dump(dumps[0])
     for k, sim in enumerate(S["sims"]):
         cur = parse_dump(dumps[k + 1])
-        simno = k + 2
+        simno = sim.get("_simno", k + 2)
         srows = [r for r in rows if r.get("sim") == simno and r.get("state") == "react"]
         nsteps = len(srows)
         if nsteps < 1:
+            if not sim["rxn"] and not sim["mix"] and not any(S[key] for _, key in KINDS):
+                prev = cur          # nothing to react with: no batch-reaction calculation is made
+                continue
             raise Skip("no reaction rows for simulation %d" % simno)
         # --- before
         if sim["mix"]:
@@ -904,6 +932,8 @@ def features(S):
         f.append("reaction")
     if any(s["incr"] for s in S["sims"]):
         f.append("incremental")
+    if any(s.get("run_cells") for s in S["sims"]):
+        f.append("run_cells")
     f.append("chain%d" % len(S["sims"]))
     return f
 
